@@ -4,7 +4,6 @@ use super::{PropDef, COMMON_ASSUMPTIONS};
 use crate::adapt::*;
 use crate::engine::{boxed, cr, Ctx, EnumSub, Info, Sub};
 use crate::recipes::*;
-use ff_zeroize::PrimeFieldRepr;
 use num_traits::{One, Zero};
 use pairing_plus::bls12_381 as crt;
 use pairing_plus::{verif_wnaf, CurveAffine, CurveProjective, Wnaf};
